@@ -20,8 +20,8 @@ What is modelled, literally to the code:
                  `apply_jac_scaling`, and only then `_apply_subtractions`).
 * `certify`      one symbolic run of `recover ∘ compress` on the generic matrix with the pattern `P`
                  (every written value is an integer coefficient vector over the entries of `P`),
-                 accepted iff every entry of `P` ends as its own unit vector and nothing outside `P`
-                 is written.  Proven sound in `Props/C03.lean`; used to validate the colorings the
+                 accepted iff every entry of `P` ends as its own unit vector and every other written
+                 position ends as zero.  Proven sound in `Props/C03.lean`; used to validate the colorings the
                  real `MNCO_bidir` produces (translation validation).
 * the unidirectional algorithm of `_compute_coloring(J, 'fwd'|'rev')`:
   `colAdj` (`_2col_adj_rows_cols`), `orderByID` (`_order_by_ID`, with the `-ncols` sentinel),
@@ -66,6 +66,7 @@ structure Coloring where
   rev : List (List Nat) := []
   revNz : List (List Nat) := []
   subs : List (Pos × List Pos) := []
+  deriving DecidableEq
 
 /-- `Coloring.total_solves()`. -/
 def Coloring.totalSolves (C : Coloring) : Nat := C.fwd.length + C.rev.length
@@ -110,38 +111,51 @@ def revPositions (nz : List (List Nat)) : List (List Nat) → List Pos
 def Coloring.writePositions (C : Coloring) : List Pos :=
   fwdPositions C.fwdNz C.fwd ++ revPositions C.revNz C.rev ++ C.subs.map (·.1)
 
+/-- The jacobian being filled in: the list of assignments made so far, newest first; a position
+never assigned holds `0` (`self.J[:] = 0.0`). -/
+abbrev Jac (α : Type) := List (Pos × α)
+
+/-- `J[q]`. -/
+def getAt {α : Type} [Zero α] (J : Jac α) (q : Pos) : α :=
+  match J.find? (fun pv => pv.1 == q) with
+  | some pv => pv.2
+  | none => 0
+
 /-- `J[p] = x`. -/
-def setAt {α : Type} (J : Pos → α) (p : Pos) (x : α) : Pos → α := fun q => if q = p then x else J q
+def setAt {α : Type} (J : Jac α) (p : Pos) (x : α) : Jac α := (p, x) :: J
 
 /-- The writes in order; a later write to the same position overwrites an earlier one. -/
-def applyWrites {α : Type} (J : Pos → α) (w : List (Pos × α)) : Pos → α :=
+def applyWrites {α : Type} (J : Jac α) (w : List (Pos × α)) : Jac α :=
   w.foldl (fun J pv => setAt J pv.1 pv.2) J
 
 /-- coloring.py:Coloring._apply_subtractions. -/
-def applySubs {α : Type} [Zero α] [Add α] [Sub α] (J : Pos → α) (subs : List (Pos × List Pos)) :
-    Pos → α :=
-  subs.foldl (fun J s => setAt J s.1 (J s.1 - sumOver s.2 J)) J
+def applySubs {α : Type} [Zero α] [Add α] [Sub α] (J : Jac α) (subs : List (Pos × List Pos)) :
+    Jac α :=
+  subs.foldl (fun J s => setAt J s.1 (getAt J s.1 - sumOver s.2 (getAt J))) J
 
 /-- All writes of the colored solves: fwd colors first, then rev colors (`Coloring.modes()` is
 `('fwd', 'rev')`). -/
 def solveWrites {α : Type} (C : Coloring) (comp : Compressed α) : List (Pos × α) :=
   fwdWritesFrom C.fwdNz comp.fwd 0 C.fwd ++ revWritesFrom C.revNz comp.rev 0 C.rev
 
-/-- The jacobian after the colored solves, before scaling and subtractions (`self.J[:] = 0.0` first). -/
-def rawJac {α : Type} [Zero α] (C : Coloring) (comp : Compressed α) : Pos → α :=
-  applyWrites (fun _ => 0) (solveWrites C comp)
+/-- The jacobian after the colored solves, before scaling and subtractions. -/
+def rawJac {α : Type} (C : Coloring) (comp : Compressed α) : Jac α :=
+  applyWrites [] (solveWrites C comp)
 
 /-- The reconstructed jacobian. -/
-def recover {α : Type} [Zero α] [Add α] [Sub α] (C : Coloring) (comp : Compressed α) : Pos → α :=
+def recover {α : Type} [Zero α] [Add α] [Sub α] (C : Coloring) (comp : Compressed α) : Jac α :=
   applySubs (rawJac C comp) C.subs
 
-/-- Reconstruction with the elementwise unit/driver scaling `J[p] *= s p` of the total jacobian.
+/-- `J[p] *= s p` for every entry (unit and driver scaling of the total jacobian). -/
+def scaleJac {α : Type} [Mul α] (s : Pos → α) (J : Jac α) : Jac α := J.map fun pv => (pv.1, pv.2 * s pv.1)
+
+/-- Reconstruction with the elementwise unit/driver scaling of the total jacobian.
 `late = true`: scaling is applied to the raw jacobian and the subtractions run on the scaled values
 (`_TotalJacInfo.compute_totals` at the pinned commit); `late = false`: subtractions first. -/
 def recoverScaled {α : Type} [Zero α] [Add α] [Sub α] [Mul α] (late : Bool) (C : Coloring)
-    (s : Pos → α) (comp : Compressed α) : Pos → α :=
-  if late then applySubs (fun p => rawJac C comp p * s p) C.subs
-  else fun p => recover C comp p * s p
+    (s : Pos → α) (comp : Compressed α) : Jac α :=
+  if late then applySubs (scaleJac s (rawJac C comp)) C.subs
+  else scaleJac s (recover C comp)
 
 /-! ## The certificate checker -/
 
@@ -176,19 +190,17 @@ def nodupB : List Pos → Bool
   | [] => true
   | x :: xs => !xs.contains x && nodupB xs
 
-/-- DESIGN.md E.3: run `recover ∘ compress` once on the generic matrix; accept iff every entry of
-the pattern ends as its own unit vector and no position outside the pattern is ever written. -/
+/-- DESIGN.md E.3: run `recover ∘ compress` once on the generic matrix; accept iff at every entry of
+the pattern and at every position that is ever written the final coefficient vector is that of the
+generic matrix (the entry's own unit vector inside the pattern, zero outside). -/
 def certify (P : Pattern) (C : Coloring) : Bool :=
   let J := recover C (compress C (symM P.nz))
-  nodupB P.nz && C.writePositions.all (fun q => P.nz.contains q) &&
-    P.nz.all (fun p => eqPad (J p).v (symM P.nz p).v)
+  nodupB P.nz && (P.nz ++ C.writePositions).all (fun p => eqPad (getAt J p).v (symM P.nz p).v)
 
-/-- Diagnostics for the harness: the entries of the pattern that are not reconstructed and the
-written positions outside the pattern. -/
-def certifyFailures (P : Pattern) (C : Coloring) : List Pos × List Pos :=
+/-- Diagnostics for the harness: the positions at which the check of `certify` fails. -/
+def certifyFailures (P : Pattern) (C : Coloring) : List Pos :=
   let J := recover C (compress C (symM P.nz))
-  (P.nz.filter (fun p => !eqPad (J p).v (symM P.nz p).v),
-   C.writePositions.filter (fun q => !P.nz.contains q))
+  (P.nz ++ C.writePositions).filter (fun p => !eqPad (getAt J p).v (symM P.nz p).v)
 
 /-! ## The unidirectional coloring algorithm -/
 
